@@ -1,5 +1,6 @@
 import Pxv.Driver.Util
 import Pxv.Model.Order
+import Pxv.Model.Borrow
 open Lean Pxv.Driver
 
 namespace Pxv.CG
@@ -37,6 +38,20 @@ def graph? (j : Json) : Option Graph := do
 
 def boolJ (b : Bool) : Json := Json.bool b
 
+def ekStr : EK → String
+  | .move => "move" | .shared => "shared" | .excl => "excl" | .before => "before"
+
+def graphJ (g : Graph) : Json :=
+  Json.mkObj [("n", Json.num (JsonNumber.fromNat g.size)),
+    ("edges", Json.arr (g.edges.map (fun e => Json.arr #[Json.num (JsonNumber.fromNat e.src),
+      Json.num (JsonNumber.fromNat e.dst), Json.str (ekStr e.kind)])).toArray)]
+
+def diagsJ (ds : List Diag) : Json :=
+  Json.arr (ds.map (fun d => Json.arr #[Json.str (match d.kind with
+    | .multipleConsumers => "multiple-consumers"
+    | .moveWhileBorrowed => "move-while-borrowed"
+    | .mutWhileBorrowed => "mut-while-borrowed"), Json.num (JsonNumber.fromNat d.node)])).toArray
+
 /-- request {"op":"check","g":graph,"sigma":[node ids in execution order]}:
     is `sigma` a run of the ordering system, complete, and ownership-safe on the path to every sink?
     request {"op":"order","g":graph}: the model's own order. -/
@@ -59,6 +74,13 @@ def handle (j : Json) : Json :=
         ("isTopo", boolJ (isTopo g σ)), ("modelOrderOk", boolJ ((order g).isSome)),
         ("sinks", Json.arr per.toArray), ("whole", whole)]
     | none => Json.mkObj [("r", "bad-op")]
+  | some "mc", some g =>
+    let r := multipleConsumers g
+    Json.mkObj [("r", "ok"), ("g", graphJ r.1), ("diags", diagsJ r.2)]
+  | some "mwb", some g =>
+    let r := moveWhileBorrowed g
+    Json.mkObj [("r", "ok"), ("g", graphJ r.1), ("diags", diagsJ r.2),
+      ("captured", Json.arr ((captured g).map (fun (k, v) => Json.arr #[Json.num (JsonNumber.fromNat k), natListJson v])).toArray)]
   | some "order", some g =>
     match order g with
     | some σ => Json.mkObj [("r", "ok"), ("order", natListJson σ)]
